@@ -209,7 +209,7 @@ def prog_C15(ctx):
 
 
 def prog_C08(ctx):
-    generic(ctx, ['Dc4bcVerif.Props.C08', 'Dc4bcVerif.Props.C20Node'], 'nodediff', 'node', ['C08'], NODE_TRUSTED, NODE_RULE, cov_from_stats=node_cov)
+    generic(ctx, ['Dc4bcVerif.Props.C08', 'Dc4bcVerif.Props.C20Node', 'Dc4bcVerif.Props.C13Clock'], 'nodediff', 'node', ['C08'], NODE_TRUSTED, NODE_RULE, cov_from_stats=node_cov)
 
 
 def monitor_only(ctx, driver, monitor_prefixes, cov_key, timeout=7200):
@@ -239,7 +239,7 @@ def monitor_only(ctx, driver, monitor_prefixes, cov_key, timeout=7200):
 
 def prog_C18(ctx):
     node_tr = list(NODE_TRUSTED)
-    generic(ctx, ['Dc4bcVerif.Props.C18', 'Dc4bcVerif.Props.C18Fsm', 'Dc4bcVerif.Props.C18Node'], 'nodediff', 'node', ['C18'], node_tr, NODE_RULE, cov_from_stats=node_cov)
+    generic(ctx, ['Dc4bcVerif.Props.C18', 'Dc4bcVerif.Props.C18Fsm', 'Dc4bcVerif.Props.C18Node', 'Dc4bcVerif.Props.C18Reinit', 'Dc4bcVerif.Props.C18Air'], 'nodediff', 'node', ['C18'], node_tr, NODE_RULE, cov_from_stats=node_cov)
     ev = ctx.cov.get('evaluations', 0)
     res = run_linediff(ctx, 'sszdiff', 'ssz')
     if res is not None:
@@ -286,13 +286,16 @@ def prog_C11(ctx):
 
 
 def prog_C13(ctx):
-    generic(ctx, ['Dc4bcVerif.Props.C13', 'Dc4bcVerif.Props.C13Fsm', 'Dc4bcVerif.Props.C13Node', 'Dc4bcVerif.Props.C13Start', 'Dc4bcVerif.Props.C18'], 'nodediff', 'node', ['C13'], NODE_TRUSTED +
+    generic(ctx, ['Dc4bcVerif.Props.C13', 'Dc4bcVerif.Props.C13Fsm', 'Dc4bcVerif.Props.C13Node', 'Dc4bcVerif.Props.C13Start', 'Dc4bcVerif.Props.C13Clock', 'Dc4bcVerif.Props.C13Reinit', 'Dc4bcVerif.Props.C18'], 'nodediff', 'node', ['C13'], NODE_TRUSTED +
             ['translator: the ordered list of calls with durable effects per function of node_service.go (Gen/Effects.lean), regenerated on every run; order_in_source / answer_order_in_source are kernel-evaluated over it',
              'crashdiff: a real ceremony in which one node is killed before its k-th durable effect (every write to its state store, every send to the board; enumerated from a crash-free reference run), restarted with the real constructors on the same directories, and driven on; results of the airgapped machine are re-submitted, not re-computed',
              'assumed, not proved: atomicity of one LevelDB write, durability of the board file (ReapplySafe of the handler is proved for the node model: node_reapplySafe)'],
             NODE_RULE, cov_from_stats=node_cov)
     ev = ctx.cov.get('evaluations', 0)
     cr = monitor_only(ctx, 'crashdiff', ['C13'], 'crash_injection')
+    rc = monitor_only(ctx, 'reinitdiff', ['C13'], 'crash_inside_reinit')
+    if rc:
+        ev += rc.get('ReinitCrashRuns', 0)
     if cr:
         ctx.cov['evaluations'] = ev + cr['Runs']
         ctx.cov['distinct_nontrivial'] = ctx.cov.get('distinct_nontrivial', 0) + len(cr.get('OutcomeHist') or {})
@@ -301,7 +304,7 @@ def prog_C13(ctx):
 
 
 def prog_C14(ctx):
-    generic(ctx, ['Dc4bcVerif.Props.C14', 'Dc4bcVerif.Props.C15'], 'nodediff', 'node', ['C14'], NODE_TRUSTED +
+    generic(ctx, ['Dc4bcVerif.Props.C14', 'Dc4bcVerif.Props.C14Rounds', 'Dc4bcVerif.Props.C15'], 'nodediff', 'node', ['C14'], NODE_TRUSTED +
             ['translator: for every method of BaseOperationRepo whether it holds the repository mutex for its whole body and which repository/state calls it makes (Gen/Locks.lean), regenerated on every run; repo_rmw_locked is kernel-evaluated over it',
              'scheddiff: an API request and a poll tick of one real node run as two goroutines over the SAME services; every call on the state store or the board first asks a scheduler, which executes a plan with up to three pre-emptions (a thread that blocks on a lock held by the other is detected by a 60 ms timeout and the holder is resumed); the final state (pool, tombstones, rounds, signatures, offset, posted messages) must be that of one of the two serial orders, computed on the same snapshot',
              'assumed: Go mutexes give mutual exclusion and the memory model makes a locked read-modify-write one atomic step (the Lean pool operations put/del are such steps); LevelDB single Put/Get are atomic'],
@@ -326,7 +329,7 @@ def air_cov(ctx, st):
 
 
 def prog_C12(ctx):
-    generic(ctx, ['Dc4bcVerif.Props.C12'], 'airdiff', 'air', ['C12'], AIR_TRUSTED,
+    generic(ctx, ['Dc4bcVerif.Props.C12', 'Dc4bcVerif.Props.C18Air'], 'airdiff', 'air', ['C12'], AIR_TRUSTED,
             'ceremonies (3,2),(2,2) [thorough: +(4,3),(3,3)]; per ceremony one participant: restart before every operation, and (sampled in quick, all in thorough) kill-before-log and kill-after-log at every operation, plus one run restarting after every step; two clones fed the same operations',
             cov_from_stats=air_cov)
 
